@@ -126,7 +126,7 @@ let ses = { lvl = new_level N0; gen = N0; oracle = false; iface_ok = true; asks 
 let fork : level option ref = ref None
 let fork_gen = ref N0
 
-let fuel = nat_of_int 200000
+let fuel = nat_of_int 20000
 
 let ask o inc =
   print_string ("? " ^ string_of_order o ^ " " ^ string_of_n inc ^ "\n"); flush stdout;
@@ -194,8 +194,11 @@ let handle line =
   | ["ADD"; o] ->
     let o = order_of_string o in
     ses.lvl <- add_order ses.lvl o;
-    (match !fork with Some f -> fork := Some (add_order f o) | None -> ());
-    "= ret=" ^ string_of_order o ^ " " ^ string_of_state ses.lvl
+    let fk = (match !fork with
+        | Some f -> let f' = add_order f o in fork := Some f';
+          " || ret=" ^ string_of_order o ^ " " ^ string_of_state f'
+        | None -> "") in
+    "= ret=" ^ string_of_order o ^ " " ^ string_of_state ses.lvl ^ fk
   | ["MATCH"; qty; taker] ->
     let qty = n_of_string qty and taker = oid_of_string taker in
     let main =
